@@ -594,8 +594,9 @@ func (s *BaseNodeService) reinitDKG(message storage.Message) error {
 
 	operations := make([]*types.Operation, 0)
 	for _, msg := range req.Messages {
-		if fsm.Event(msg.Event) == sif.EventSigningStart {
-			break
+		// the signing phase is not replayed, wherever its messages stand in the file
+		if types.IsSigningPhaseEvent(fsm.Event(msg.Event)) {
+			continue
 		}
 
 		// a message of another round has no business in the re-initialisation of this one
